@@ -69,6 +69,8 @@ inductive PayloadKind where
 structure Resp where
   status : Nat
   hdrRA : Option Int          -- `Retry-After` header (None = absent or empty string)
+  hdrBad : Bool               -- the header is present but `float()` cannot parse it (an HTTP-date,
+                              -- RFC 7231 §7.1.3): `int(float(..))` raises ValueError (finding F1)
   payload : PayloadKind
   detRA : Option Int          -- `details.retryAfterSeconds` in the JSON body, if present
   deriving DecidableEq, Repr, Inhabited
@@ -123,7 +125,11 @@ def verdict : Fault → Verdict
   | .http r =>
     if raises r.status then
       let c := classify r.status
-      if retryable c then .retry c (if c = .tooMany then retryAfter r else none) else .raise c
+      if retryable c then
+        -- the Retry-After parsing comes first in the handler; a ValueError there leaves `request`
+        if c = .tooMany && r.hdrBad then .raise .other
+        else .retry c (if c = .tooMany then retryAfter r else none)
+      else .raise c
     else .success
   | .exc conn timeout runtime ssl closed =>
     -- `except RuntimeError` comes first in the source
